@@ -50,32 +50,62 @@ KIND = {"exec": "KExec", "query": "KQuery", "prepare": "KPrepare", "stmtexec": "
 PANICVALS = ["string", "error", "nil", "struct", "runtime"]
 
 
-# ---- translator: the shape of transactOnConn's deferred function ---------------------------
+# ---- translator: the shape of the function that ends the transaction, the built-in acceptable errors ----
+def _go_files(pkg):
+    d = os.path.join(vlib.REPO, pkg)
+    return [os.path.join(d, f) for f in sorted(os.listdir(d)) if f.endswith(".go") and not f.endswith("_test.go")]
+
+
+def _func_bodies(src):
+    """[(name, text)] of the top-level functions / methods of a gofmt-ed file"""
+    out = []
+    for m in re.finditer(r"\nfunc (?:\([^)]*\) )?(\w+)\(.*?\n}\n", src, re.S):
+        out.append((m.group(1), m.group(0)))
+    return out
+
+
 def regen_constants():
-    """Reads core/stores/sqlx/tx.go and sqlconn.go of the checked tree -> coq/gen/C14Consts.v.
-    gen_goexit_guard: can transactOnConn's deferred function tell a body that returned nil from a
-    body that never returned (runtime.Goexit)?  It cannot exactly when fn's result is returned
-    directly (`return fn(ctx, tx)`) and the closure only looks at recover() and err.
-    gen_acc_txdone / gen_acc_canceled: commonSqlConn.acceptable treats these errors as successes
-    for the breaker (the user's WithAcceptable functions are then not consulted)."""
-    src = open(os.path.join(vlib.REPO, "core/stores/sqlx/tx.go")).read()
-    m = re.search(r"\nfunc transactOnConn\(.*?\n}\n", src, re.S)
-    if not m:
-        raise RuntimeError("C14 translator: transactOnConn not found in core/stores/sqlx/tx.go")
-    body = m.group(0)
-    unguarded = re.search(r"\n\treturn fn\(ctx, tx\)\n}\n$", body) is not None and "recover()" in body
-    guard = not unguarded
-    csrc = open(os.path.join(vlib.REPO, "core/stores/sqlx/sqlconn.go")).read()
-    m = re.search(r"\nfunc \(db \*commonSqlConn\) acceptable\(.*?\n}\n", csrc, re.S)
-    if not m:
-        raise RuntimeError("C14 translator: commonSqlConn.acceptable not found in core/stores/sqlx/sqlconn.go")
-    acc = m.group(0)
-    first = re.search(r"if err == nil[^\n]*\{", acc)
-    cond = first.group(0) if first else ""
-    txdone = "sql.ErrTxDone" in cond
-    canceled = "context.Canceled" in cond
-    norows = "sql.ErrNoRows" in cond
-    text = "\n".join(["(* GENERATED by tools/props/c14.py from core/stores/sqlx/tx.go and sqlconn.go of the",
+    """Reads the non-test files of core/stores/sqlx of the checked tree -> coq/gen/C14Consts.v.
+    gen_goexit_guard: can the deferred function that ends the transaction tell a body that returned nil from a body that
+    never returned (runtime.Goexit)?  It cannot exactly when fn's result is returned directly (`return fn(ctx, tx)`) and
+    the closure only looks at recover() and err.  The function is found by what it does (the one that recovers and calls
+    both Commit and Rollback), whatever it is called and wherever in the package it lives.
+    gen_acc_txdone / gen_acc_canceled / gen_acc_norows: the SqlConn's acceptable method treats these errors as successes
+    for the breaker (the user's WithAcceptable functions are then not consulted): read off the first `err == nil || ...`
+    condition of a method named acceptable.
+    What cannot be located textually falls back to today's value with a note: the flags only parametrise the MODEL side
+    of the correspondence (prop_ok never looks at them), so a real change of behaviour still shows up as a disagreement
+    or a property failure on the executed histories, and a harmless rewrite is not an alarm."""
+    notes = []
+    funcs = []
+    for path in _go_files("core/stores/sqlx"):
+        funcs += _func_bodies(open(path).read())
+    enders = [(n, b) for n, b in funcs if "recover()" in b and ".Commit()" in b and ".Rollback()" in b]
+    if not enders:
+        notes.append("translator: no function of core/stores/sqlx recovers and calls Commit and Rollback; goexit guard assumed")
+        guard = True
+    else:
+        body = enders[0][1]
+        # unguarded = the body's result is returned directly: the last statement is `return <callee>(<args>)` of the
+        # function-typed parameter, so the deferred closure cannot see whether the call came back
+        params = re.findall(r"(\w+) func\(", body.split("{", 1)[0])
+        last = re.search(r"\n\treturn (\w+)\([^\n]*\)\n}\n$", body)
+        guard = not (last is not None and last.group(1) in params)
+    accs = [b for n, b in funcs if n == "acceptable"]
+    cond = ""
+    for b in accs:
+        m = re.search(r"err == nil\s*\|\|.*?\{", b, re.S)
+        if m:
+            cond = m.group(0)
+            break
+    if not cond:
+        notes.append("translator: no `err == nil || ...` condition in a method named acceptable; built-in acceptable errors assumed")
+        txdone = canceled = norows = True
+    else:
+        txdone = "ErrTxDone" in cond
+        canceled = "context.Canceled" in cond
+        norows = "ErrNoRows" in cond
+    text = "\n".join(["(* GENERATED by tools/props/c14.py from the files of core/stores/sqlx of the",
                       "   checked tree at every run - do not edit. *)",
                       "Definition gen_goexit_guard : bool := %s." % cbool(guard),
                       "Definition gen_acc_txdone : bool := %s." % cbool(txdone),
@@ -89,7 +119,7 @@ def regen_constants():
         with open(tmp, "w") as f:
             f.write(text)
         os.replace(tmp, path)
-    return (guard, txdone, canceled, norows), old != text
+    return (guard, txdone, canceled, norows), old != text, notes
 
 
 # ---- case construction ------------------------------------------------------------------------
@@ -573,6 +603,8 @@ def step_term(s):
         act = "ASelfRollback"
     elif a == "cancel":
         act = "ACancel"
+    elif a == "tripbrk":
+        act = "ATrip"
     else:
         act = "ANop"
     return "mkStep %s %s" % (act, ONFAIL[s["onfail"]])
@@ -595,7 +627,11 @@ def body_term(b, th, dl=False):
         return "(Some (BErr (%s %s %s)))" % (con, cz(b[1]), val_term(b[2], b[3]))
     if k == "ctx":
         return "(Some (BErr (BCtx %s %s)))" % (cz(b[1]), cbool(dl))
-    con = {"txdone": "BTxDone", "nest": "BNest"}[k]   # "unexpected": KeyError on purpose
+    if k == "unexpected":
+        # an error the body could not attribute (not the driver's, not the context's, not sql.ErrTxDone, not the nesting
+        # refusal): the model never predicts step -1, so the case disagrees - and the property is still judged on it
+        return "(Some (BErr (BTxDone (-1))))"
+    con = {"txdone": "BTxDone", "nest": "BNest"}[k]
     return "(Some (BErr (%s %s)))" % (con, cz(b[1]))
 
 
@@ -655,9 +691,9 @@ class C14(Property):
     acc_canceled = True
 
     def regen(self, ctx):
-        (self.guard, self.acc_txdone, self.acc_canceled, self.acc_norows), changed = regen_constants()
+        (self.guard, self.acc_txdone, self.acc_canceled, self.acc_norows), changed, notes = regen_constants()
         return ["C14Consts.v %s: goexit_guard=%s acc_txdone=%s acc_canceled=%s acc_norows=%s" %
-                ("rewritten" if changed else "unchanged", self.guard, self.acc_txdone, self.acc_canceled, self.acc_norows)]
+                ("rewritten" if changed else "unchanged", self.guard, self.acc_txdone, self.acc_canceled, self.acc_norows)] + notes
 
     def prepare(self, ctx):
         ok, res = vlib.go_build("c14")
